@@ -2025,7 +2025,18 @@ func calcDescriptorVBIDataLength(d *DescriptorVBIData) uint8 {
 	if d == nil {
 		return 0
 	}
-	return uint8(3 * len(d.Services))
+	ret := 0
+	for _, item := range d.Services {
+		ret += 2 // data_service_id and data_service_descriptor_length
+		switch item.DataServiceID {
+		case VBIDataServiceIDClosedCaptioning, VBIDataServiceIDEBUTeletext, VBIDataServiceIDInvertedTeletext,
+			VBIDataServiceIDMonochrome442Samples, VBIDataServiceIDVPS, VBIDataServiceIDWSS:
+			ret += len(item.Descriptors)
+		default:
+			ret++ // one reserved byte
+		}
+	}
+	return uint8(ret)
 }
 
 func writeDescriptorVBIData(w *astikit.BitsWriter, d *DescriptorVBIData) error {
@@ -2143,7 +2154,7 @@ func writeDescriptor(w *astikit.BitsWriter, d *Descriptor) (int, error) {
 
 	written := int(length) + 2
 
-	if d.Length == 0 {
+	if length == 0 {
 		return written, nil
 	}
 
